@@ -128,6 +128,13 @@ func c07Cases(thorough bool) []c07Case {
 		}
 		add("code-size", strings.TrimSuffix(strings.Repeat("1+", k), "+"), true, fmt.Sprint(k), false)
 		add("code-size", strings.TrimSuffix(strings.Repeat("x=1;", k), ";")+";7", true, "7", false)
+		if k <= 9000 {
+			// the same sums as the body of a function and of a computed value (their code is a buffer of its own)
+			sum := strings.TrimSuffix(strings.Repeat("1+", k), "+")
+			add("code-size", "func fsum() { "+sum+" }; fsum()", true, fmt.Sprint(k), false)
+			add("code-size", "&csum = "+sum+"; csum", true, fmt.Sprint(k), false)
+			add("code-size", "func fsum() { "+sum+" }; 7", true, "7", false)
+		}
 	}
 	for _, d := range []int{5, 18, 19, 20, 21, 22, 23, 30, 60} {
 		add("block-nesting", "x = 0; "+strings.Repeat("if 1 { ", d)+"x = 7"+strings.Repeat(" }", d)+"; x", true, "7", false)
